@@ -553,7 +553,12 @@ func runRelay(e *core.Env) {
 		mtu := mtus[r.Intn(len(mtus))]
 		sk, ck := r.Pick(0, 1, 4, 5), r.Intn(7)
 		S := pickProto(r, mtu, sk) // the protocol the relay serves (its downstream clients speak it)
-		C := pickProto(r, mtu, ck) // the protocol the relay uses upstream
+		// the upstream client has its own MTU setting; the relay's receive size follows the server's
+		mtuC := mtu
+		if r.Bool() {
+			mtuC = mtus[r.Intn(len(mtus))]
+		}
+		C := pickProto(r, mtuC, ck) // the protocol the relay uses upstream
 		target := pickTarget(r, false)
 		if C.direct && !target.IsIP() {
 			target = pickTarget(r, true)
@@ -581,7 +586,7 @@ func runRelay(e *core.Env) {
 		if plen < 0 {
 			plen = 0
 		}
-		d := &codecCase{Proto: S.name + " -> " + C.name, MTU: mtu, Target: target.String(), PayloadLen: plen, Front: H.Front, Rear: H.Rear, Dir: "uplink"}
+		d := &codecCase{Proto: fmt.Sprintf("%s -> %s (client mtu %d)", S.name, C.name, mtuC), MTU: mtu, Target: target.String(), PayloadLen: plen, Front: H.Front, Rear: H.Rear, Dir: "uplink"}
 		rec.Begin("relay", i, fmt.Sprintf("%+v", d))
 		rec.Eval()
 		viol := func(kind, format string, a ...any) {
@@ -630,9 +635,9 @@ func runRelay(e *core.Env) {
 		upOutcome := "repacked"
 		var climit int
 		if C.direct {
-			climit = zerocopy.MaxPacketSizeForAddr(mtu, ta.IPPort().Addr())
+			climit = zerocopy.MaxPacketSizeForAddr(mtuC, ta.IPPort().Addr())
 		} else {
-			climit = zerocopy.MaxPacketSizeForAddr(mtu, C.serverAP.Addr())
+			climit = zerocopy.MaxPacketSizeForAddr(mtuC, C.serverAP.Addr())
 		}
 		if err != nil {
 			upOutcome = "refused"
@@ -646,7 +651,7 @@ func runRelay(e *core.Env) {
 				return
 			}
 			if cpl > climit {
-				viol("mtu_exceeded", "re-packed packet of %d bytes exceeds %d (MTU %d)", cpl, climit, mtu)
+				viol("mtu_exceeded", "re-packed packet of %d bytes exceeds %d (MTU %d)", cpl, climit, mtuC)
 				return
 			}
 			for x := range buf {
@@ -785,7 +790,7 @@ func runRelay(e *core.Env) {
 				}
 			}
 		}
-		rec.Class("%s>%s/mtu=%d/pay=%s/%s/down=%s", S.name, C.name, mtu, cls, upOutcome, downOutcome)
+		rec.Class("%s>%s/mtu=%d/cmtu=%s/pay=%s/%s/down=%s", S.name, C.name, mtu, map[bool]string{true: "same", false: "other"}[mtu == mtuC], cls, upOutcome, downOutcome)
 		if i%4000 == 0 {
 			rec.Sample(8, d)
 		}
